@@ -22,6 +22,8 @@
 #include "verif_rt.h"
 
 static FILE *          g_out;
+static int               g_use_barrier; /* --barrier: every encoder instance is initialised before any of them encodes */
+static pthread_barrier_t g_barrier;
 static pthread_mutex_t g_mu = PTHREAD_MUTEX_INITIALIZER;
 #define EMIT(...)                      \
     do {                               \
@@ -117,6 +119,8 @@ static void *enc_main(void *arg) {
     if (svt_av1_enc_init_handle(&h, NULL, &cfg) != EB_ErrorNone) {
         in->rc = 2;
         EMIT("{\"inst\":%d,\"ev\":\"Fail\",\"where\":\"init_handle\"}\n", in->idx);
+        if (g_use_barrier)
+            pthread_barrier_wait(&g_barrier);
         return NULL;
     }
     cfg.source_width      = (uint32_t)in->w;
@@ -126,11 +130,15 @@ static void *enc_main(void *arg) {
         if (apply_set(&cfg, in->sets[i])) {
             in->rc = 2;
             EMIT("{\"inst\":%d,\"ev\":\"Fail\",\"where\":\"set %s\"}\n", in->idx, in->sets[i]);
+            if (g_use_barrier)
+                pthread_barrier_wait(&g_barrier);
             return NULL;
         }
     EbErrorType e = svt_av1_enc_set_parameter(h, &cfg);
     if (e == EB_ErrorNone)
         e = svt_av1_enc_init(h);
+    if (g_use_barrier)
+        pthread_barrier_wait(&g_barrier);
     if (e != EB_ErrorNone) {
         in->rc = 2;
         EMIT("{\"inst\":%d,\"ev\":\"Fail\",\"where\":\"init\",\"rc\":%d}\n", in->idx, (int)e);
@@ -329,6 +337,7 @@ int main(int argc, char **argv) {
     for (int i = 1; i < argc; i++) {
         if (!strcmp(argv[i], "--out") && i + 1 < argc) out = argv[++i];
         else if (!strcmp(argv[i], "--timeout") && i + 1 < argc) timeout_s = atoi(argv[++i]);
+        else if (!strcmp(argv[i], "--barrier")) g_use_barrier = 1;
         else if (!strcmp(argv[i], "--inst") && i + 1 < argc && ninst < 16) {
             parse_inst(&inst[ninst], argv[++i]);
             inst[ninst].idx = ninst;
@@ -344,6 +353,14 @@ int main(int argc, char **argv) {
     signal(SIGBUS, on_crash);
     signal(SIGFPE, on_crash);
     alarm((unsigned)timeout_s);
+    if (g_use_barrier) {
+        int nenc = 0;
+        for (int i = 0; i < ninst; i++) nenc += !inst[i].is_dec;
+        if (nenc > 0)
+            pthread_barrier_init(&g_barrier, NULL, (unsigned)nenc);
+        else
+            g_use_barrier = 0;
+    }
     pthread_t th[16];
     for (int i = 0; i < ninst; i++) pthread_create(&th[i], NULL, inst[i].is_dec ? dec_main : enc_main, &inst[i]);
     int rc = 0;
